@@ -282,6 +282,14 @@ pub fn scenario(idx: usize, seed: u64, rpcs: usize) -> ScenarioResult {
                 cases.push(case);
             }
         }
+        // whatever the deadline machinery does, the handler must see the request as it was sent
+        {
+            let g = w.log.lock();
+            let mut st = world::DeliveryStats::default();
+            for p in world::check_delivery(&g, &mut st).into_iter().take(2) {
+                problems.push(format!("delivery: {p}"));
+            }
+        }
         for i in 0..2 {
             let seen = counters[i].load(std::sync::atomic::Ordering::SeqCst);
             if with_layer[i] && seen != layer_expected[i] {
